@@ -631,6 +631,7 @@ func checkC16(c *ctx) {
 		p     *toolPkg
 		files map[string]string // selected input -> output path (relative to module)
 		all   bool
+		args  []string
 	}
 	sels := make([]*sel, len(pkgs))
 	parallel(len(pkgs), func(i int) {
@@ -665,10 +666,39 @@ func checkC16(c *ctx) {
 			}
 		}
 		args = append(args, "./"+p.Rel)
+		s.args = args
 		p.run = runTool(pdir, cff, args...)
 		sels[i] = s
 	})
 	after := snapshot(pdir)
+	// The same invocations once more, now with every output of the first round
+	// in place (a generator is normally re-run over a tree that holds its earlier
+	// output): same exit status, and the tree afterwards is byte for byte the
+	// tree after the first round.
+	rerun := 0
+	parallel(len(pkgs), func(i int) {
+		tr := runTool(pdir, cff, sels[i].args...)
+		if tr.Exit != pkgs[i].run.Exit {
+			c.R.Add(vc.Violation{Property: "C16", Case: "rerun/" + pkgs[i].Rel, Why: fmt.Sprintf("cff exited %d when run over the package again with its earlier output in place; the first run exited %d: %s", tr.Exit, pkgs[i].run.Exit, vc.Tail(tr.Stderr, 600)), Obs: map[string]string{"clause": "footprint"}})
+		}
+	})
+	{
+		again := snapshot(pdir)
+		cr, ch, rm := diffSnap(after, again)
+		rerun = len(after)
+		for _, p := range ch {
+			if p == "go.mod" || p == "go.sum" {
+				continue
+			}
+			c.R.Add(vc.Violation{Property: "C16", Case: "rerun/" + p, Why: "running cff again over a tree that holds its earlier output changed a file: " + p, Obs: map[string]string{"clause": "footprint"}})
+		}
+		for _, p := range cr {
+			c.R.Add(vc.Violation{Property: "C16", Case: "rerun/" + p, Why: "running cff again over a tree that holds its earlier output created another file: " + p, Obs: map[string]string{"clause": "footprint"}})
+		}
+		for _, p := range rm {
+			c.R.Add(vc.Violation{Property: "C16", Case: "rerun/" + p, Why: "running cff again over a tree that holds its earlier output removed a file: " + p, Obs: map[string]string{"clause": "footprint"}})
+		}
+	}
 	created, changed, removed := diffSnap(before, after)
 	expected := map[string]bool{}
 	for _, s := range sels {
@@ -723,11 +753,12 @@ func checkC16(c *ctx) {
 		"distinct_nontrivial": len(distinct),
 		"rule": fmt.Sprintf("Engine T. (b) constraints: every expression over the tags {cff,a,b} up to nesting depth %d (exhaustive for that depth) plus a seeded sample of deeper ones, as //go:build lines, as // +build lines (via PlusBuildLines and hand-made comma/space/multi-line forms) and both together, each on a file with one directive; "+
 			"cff run under the four tag sets containing cff; oracle: for all 8 assignments out(sigma) = src(sigma with cff flipped), via go/build/constraint. (a) preservation: Engine G programs and static multi-directive files; source and output ASTs compared structurally after masking top-level directive calls / generated closures; imports only added. "+
-			"(c) footprint: SHA-256 snapshot of the module before/after; created files must be exactly the documented outputs of the selected inputs (random -file and -file=IN=OUT selections); nothing else changes. distinct = distinct constraint headers + distinct files compared", exhaustiveDepth),
-		"samples":                     samples,
-		"constraint_files":            consChecked,
-		"preservation_files":          presChecked,
-		"files_created":               len(created),
+			"(c) footprint: SHA-256 snapshot of the module before/after; created files must be exactly the documented outputs of the selected inputs (random -file and -file=IN=OUT selections); nothing else changes; then every invocation is repeated with the outputs in place and the tree must not change at all. distinct = distinct constraint headers + distinct files compared", exhaustiveDepth),
+		"samples":            samples,
+		"constraint_files":   consChecked,
+		"preservation_files": presChecked,
+		"files_created":      len(created),
+		"files_compared_after_rerun_with_outputs_in_place": rerun,
 		"exhaustive":                  false,
 		"exhaustive_constraint_depth": exhaustiveDepth,
 	}
